@@ -8,7 +8,7 @@ RNAMES = {16: "hp_eager", 17: "he_eager", 0: "lfrc", 1: "hp_static", 2: "he_stat
           13: "geb_sf0_one_none", 14: "ebr_sf2", 15: "debra_sf2_abandon"}
 
 TARGETS = {}
-for n in range(16):
+for n in range(18):  # 16 / 17 = eager hazard_pointer / hazard_eras (threshold 0: a scan on every retirement)
     TARGETS["queues.R%d" % n] = dict(src="scenarios/queues.cpp", defs=["-DXV_RECL=%d" % n])
 TARGETS["queues.norecl"] = dict(src="scenarios/queues.cpp", defs=["-DXV_NORECL"])
 for n in range(16):
@@ -173,18 +173,20 @@ def plan_queue_lin(prop, pattern, recls_quick, recls_thorough, norecl, rule, gat
 
 PLANS = {}
 PLANS["C04"] = plan_queue_lin(
-    "C04", r"^(ms|ram|nik)_", R8, R8 + RPLUS, False,
+    "C04", r"^(ms|ram|nik)_", R8 + [16, 17], R8 + RPLUS + [16, 17], False,
     "each evaluation = one generated program (2-4 threads x <=6 push/try_pop/pop, sequential prefix, final drain) run under one "
     "seeded schedule of the controlled runtime and judged by a WGL linearizability search against a sequential FIFO; "
     "distinct_nontrivial counts distinct (program, call/return order, results) hashes in which at least two operations of different "
-    "threads overlap", ["empty_under_overlap"], execs_quick=6000, execs_thorough=40000)
+    "threads overlap; reclaimers: the 8 standard configurations plus eager hazard_pointer / hazard_eras (threshold 0: a scan on every retirement, so a "
+    "node that is retired while still reachable through a stale pointer is freed at once and the access hits the freed-memory shadow)",
+    ["empty_under_overlap"], execs_quick=6000, execs_thorough=40000)
 PLANS["C05"] = plan_queue_lin(
     "C05", r"^(vyu|nib)_", [], [], True,
     "as C04 but against a bounded FIFO of the configured capacity (failed strong try_push legal only when full; for "
     "nikolaev_bounded_queue when size + overlapping operations >= capacity; weak vyukov operations may fail spuriously)",
     ["rejected_under_overlap", "empty_under_overlap"], execs_quick=20000, execs_thorough=200000)
 PLANS["C06"] = plan_queue_lin(
-    "C06", r"^(kir|kib)_", [1, 2, 3, 4, 5, 6, 7], [1, 2, 3, 4, 5, 6, 7, 8, 9, 11, 12, 13, 14, 15], True,
+    "C06", r"^(kir|kib)_", [1, 2, 3, 4, 5, 6, 7, 16, 17], [1, 2, 3, 4, 5, 6, 7, 8, 9, 11, 12, 13, 14, 15, 16, 17], True,
     "as C04 but against a k-out-of-order FIFO (pop may return any of the k oldest; 'empty' legal iff size = 0, or size < k while "
     "overlapping another operation; bounded variant: rejection legal only with >= (segments-1)*k+1 stored values); the random "
     "start index is drawn from the scheduler PRNG through hook H1", ["empty_under_overlap"], execs_quick=1500, execs_thorough=20000)
@@ -230,7 +232,7 @@ def _with_big_sweeps(plan):
 
 PLANS["C06"] = _with_big_sweeps(PLANS["C06"])
 PLANS["C07"] = plan_queue_lin(
-    "C07", r"_(uptr|raw|tok)$", R8, R8 + RPLUS, True,
+    "C07", r"_(uptr|raw|tok)$", R8 + [16, 17], R8 + RPLUS + [16, 17], True,
     "each evaluation = one generated queue program with tracked elements (unique_ptr<Tracked>, Tracked*, non-trivial movable Tok) "
     "followed by destruction of the queue at a random fill level; ownership registry: every value destroyed exactly once, never "
     "after hand-out, never by the queue for raw pointers, rejected values stay with the caller; heap oracle catches double frees",
